@@ -185,3 +185,67 @@ def run(ctx, R, names):
                           'arguments crossed' % (g, idx + 1, c.callee, idx + 1, cp.get(idx + 1), cp.get(want + 1), want + 1),
                           c.ln)
     return n
+
+
+_WRAP = ('map', 'clone', 'into', 'from', 'to_owned', 'to_vec', 'cloned', 'copied', 'as_ref', 'deref', 'Borrowed', 'Owned',
+         'Some', 'as_deref', 'borrow')
+
+
+def _is_identity(x, root, top=True):
+    """x is the value rooted at `root` itself, seen through value-preserving wrappers and Option::map of such"""
+    if x.kind == 'place':
+        return x.root == root and all(f.startswith('as ') or f.isdigit() for f in x.fields)
+    if x.kind == 'cast':
+        return False
+    if x.kind == 'call':
+        return x.name.rsplit('::', 1)[-1] in _WRAP and len(x.args) >= 1 and _is_identity(x.args[0], root, False) and \
+            all(a.kind == 'agg' and a.name.startswith('closure') or _is_identity(a, root, False) for a in x.args[1:])
+    if x.kind == 'agg':
+        leaf = x.name.rsplit('::', 1)[-1]
+        if leaf == 'None' and not x.args:
+            return not top
+        if leaf in ('Some', 'Borrowed', 'Owned') and len(x.args) == 1:
+            return _is_identity(x.args[0], root, False)
+        return False
+    if x.kind == 'phi':
+        alts = x.args
+        return any(not (a.kind == 'agg' and a.name.endswith('None')) for a in alts) and \
+            all(_is_identity(a, root, False) for a in alts)
+    return False
+
+
+def identity_ctor(ctx, R, path, fields=None):
+    """W7 a constructor that stores its like-named parameters stores them UNCHANGED: `Self { f, g, .. }` - field f of
+    the struct literal is parameter f itself (looked at through value-preserving wrappers: clone, into, Some, and
+    `opt.map(Cow::Borrowed / Cow::Owned / <tuple-struct ctor>)`); a constant, a comparison or a branch in between
+    (defaulting a missing value, clamping, sanitising) changes what the consumers of that field see - they apply the
+    documented defaults themselves."""
+    bs = ctx.F.get(path)
+    if not bs:
+        ctx.fail(R, path, 'ANCHOR-MISSING', 'constructor %s not found' % path)
+        return 0
+    n = 0
+    for b in bs:
+        if b.kind == 'Closure':
+            continue
+        pn = param_names(b)
+        byname = {v: k for k, v in pn.items()}
+        e = ExprBuilder(b).place(0, ())
+        aggs = [x for x in e.walk() if x.kind == 'agg' and x.extra and x.extra.get('ak') == 'adt' and x.extra.get('fields')
+                and len(set(x.extra['fields']) & set(byname)) >= 2]
+        if not aggs:
+            ctx.note(R, '%s does not build its result as a struct literal over its parameters: identity wiring not evaluated' % path)
+            continue
+        ctx.read(b)
+        for a in aggs[:1]:
+            m = dict(zip(a.extra['fields'], a.args))
+            for f, x in m.items():
+                if f not in byname or (fields and f not in fields):
+                    continue
+                ok = _is_identity(x, ('param', byname[f]))
+                n += 1
+                ctx.check(ok, R, b, 'ctor:%s-stored-unchanged' % f, repr(x)[:80],
+                          '%s stores %r in `%s`: not the parameter `%s` itself - a value the caller did not pass (a default '
+                          'for a missing value, a clamped or sanitised one) reaches the consumers of the field' % (
+                              path.rsplit('::', 2)[-2] + '::' + path.rsplit('::', 1)[-1], x, f, f))
+    return n
